@@ -454,6 +454,82 @@ def neg_variants(rng, comps, lens):
     return out
 
 
+def gen_xf_table(rng):
+    """a table that has something to lose: filled rows (the widest one ends with a filled cell or with trailing empty cells),
+    then trailing empty material — bare rows, repeated empty rows, rows of repeated empty cells — and maybe spare columns"""
+    nfilled = rng.randint(0, 4); val = [10]
+    rows = []
+    for _ in range(nfilled):
+        cells = []
+        for _ in range(rng.randint(1, 4)):
+            rep = rng.choice([1, 1, 1, 2, 3])
+            if rng.random() < .25:
+                cells.append((None, rep))
+            else:
+                val[0] += 1; cells.append((val[0], rep))
+        rows.append((rng.choice([1, 1, 1, 2]), cells))
+    mode = rng.choice(["rows", "rows", "cols", "both", "none"])
+    widest = max([sum(c for _, c in cells) for _, cells in rows] + [0])
+    if rows and mode in ("rows", "none"):
+        for k, (rep, cells) in enumerate(rows):            # the widest row ends with a filled cell: no column can be trimmed
+            if sum(c for _, c in cells) == widest and cells[-1][0] is None:
+                val[0] += 1; cells[-1] = (val[0], cells[-1][1])
+    if mode in ("cols", "both"):
+        for rep, cells in rows:
+            if rng.random() < .7:
+                cells.append((None, rng.choice([1, 2, 3])))
+    if mode in ("rows", "both"):
+        for _ in range(rng.randint(1, 3)):
+            kind = rng.choice(["bare", "bare", "repeated", "cells"])
+            rows.append((1, []) if kind == "bare" else (rng.choice([2, 3]), []) if kind == "repeated" else (rng.choice([1, 2]), [(None, rng.choice([1, 2, 3]))]))
+    widest = max([sum(c for _, c in cells) for _, cells in rows] + [0])
+    total = widest + (rng.choice([1, 2, 3]) if mode in ("cols", "both") and rng.random() < .6 else 0)
+    if rows:
+        total = max(total, 1)
+    cols, x = [], 0
+    while x < total:
+        n = rng.randint(1, min(total - x, 3)); cols.append((x, n)); x += n
+    return dict(cols=cols, rows=rows)
+
+
+XF_OPS = ["rstrip", "rstrip_aggressive", "optimize_width", "transpose", "delete_row", "delete_column", "clear", "insert_row", "insert_column",
+          "append_row", "append_column", "set_value_beyond", "delete_cell", "extend_rows", "set_row_beyond"]
+
+
+def gen_ops(rng, w, h):
+    ops = []
+    for _ in range(rng.choice([1, 1, 1, 2])):
+        op = rng.choice(XF_OPS)
+        ops.append([op, rng.randrange(0, max(w, 1) + 2), rng.randrange(0, max(h, 1) + 2)])
+    return ops
+
+
+def apply_ops(odfdo, t, ops):
+    """size-changing operations on the live table object (positive arguments only)"""
+    from odfdo import Row, Column
+    for op, x, y in ops:
+        f = {"rstrip": lambda: t.rstrip(), "rstrip_aggressive": lambda: t.rstrip(aggressive=True), "optimize_width": lambda: t.optimize_width(),
+             "transpose": lambda: t.transpose(), "delete_row": lambda: t.delete_row(y), "delete_column": lambda: t.delete_column(x),
+             "clear": lambda: t.clear(), "insert_row": lambda: t.insert_row(y), "insert_column": lambda: t.insert_column(x),
+             "append_row": lambda: t.append_row(Row(width=x)), "append_column": lambda: t.append_column(Column()),
+             "set_value_beyond": lambda: t.set_value((t.width + x, t.height + y), 777), "delete_cell": lambda: t.delete_cell((x, y)),
+             "extend_rows": lambda: t.extend_rows([Row(width=x), Row()]), "set_row_beyond": lambda: t.set_row_values(t.height + y, [778] * (x + 1))}[op]
+        guarded(f)          # an operation that raises (e.g. transpose of a ragged table) simply leaves the table as it then is
+
+
+def post_table(cols, grid):
+    """description of the table as the XML has it NOW (independent lxml walk), used to draw addresses relative to the current end"""
+    return dict(cols=[(c if c is not None else -1, 1) for c in cols], rows=[(1, [(v, 1) for v in row]) for row in grid])
+
+
+def gen_hist_case(rng, tier, writer=False):
+    """a size-changing operation (or two), then a coordinate-taking reader / writer on the SAME live object: negative numbers must
+    count from the end the table has now"""
+    tb = gen_xf_table(rng) if rng.random() < .7 else gen_table(rng, ragged=rng.random() < .2)
+    w = sum(r for _, r in tb["cols"]); h = sum(r for r, _ in tb["rows"])
+    return dict(k="hist_w" if writer else "hist", table=tb, pre=gen_ops(rng, w, h), m=rng.choice(HIST_WRITERS if writer else READERS), seed=rng.randrange(10 ** 9))
+
+
 def gen_read_case(rng, tier, fixed=None):
     """fixed = dict(table, m, xyzt, kind): the exhaustive small-scope sweep; otherwise everything is drawn from rng"""
     if fixed:
@@ -712,9 +788,25 @@ def do_read(t, m, j, f):
     raise KeyError(m)
 
 
+def hist_expand(spec, cols, grid):
+    """the reader case of a history: addresses drawn (deterministically from the stored seed) against the table as it is after the operations"""
+    r2 = random.Random(spec["seed"])
+    w, h = len(cols), len(grid)
+    over = r2.random() < .2
+    def px(): return r2.randrange(0, w + (3 if over else 0) + 1) if (over or w == 0) else r2.randrange(0, w)
+    def py(): return r2.randrange(0, h + (3 if over else 0) + 1) if (over or h == 0) else r2.randrange(0, h)
+    x, zz = sorted([px(), px()]); y, t = sorted([py(), py()])
+    sub = gen_read_case(None, "quick", fixed=dict(table=post_table(cols, grid), m=spec["m"], xyzt=[x, y, zz, t], kind=r2.choice([0, 1, 2, 4, 5, 6] if spec["m"] in ("RowGetValues", "RowGetCells") else range(8))))   # (not the known finding F86)
+    return dict(spec, forms=spec.get("forms") or sub["forms"], bounds=spec.get("bounds") or sub["bounds"], j=sub["j"], valid=True, cls=sub["cls"])
+
+
 def run_read(spec, odfdo):
     t = odfdo.Element.from_tag(table_xml(spec["table"]))
+    if spec.get("pre"):
+        apply_ops(odfdo, t, spec["pre"])
     cols, grid = abstract_table(t.serialize())
+    if spec.get("pre"):
+        spec = hist_expand(spec, cols, grid)
     j = spec["j"]
     rw = len(grid[j]) if j is not None and j < len(grid) else 0
     pairs = []
@@ -734,7 +826,11 @@ def run_read(spec, odfdo):
 def oracle_read(spec, odfdo):
     """direct Python oracle of the property for one reader case: all forms return the same thing and ranges bound it"""
     t = odfdo.Element.from_tag(table_xml(spec["table"]))
-    _, grid = abstract_table(t.serialize())
+    if spec.get("pre"):
+        apply_ops(odfdo, t, spec["pre"])
+    cols_, grid = abstract_table(t.serialize())
+    if spec.get("pre"):
+        spec = hist_expand(spec, cols_, grid)
     j = spec["j"]; rw = len(grid[j]) if j is not None and j < len(grid) else 0
     raws = []
     for f in spec["forms"]:
@@ -762,6 +858,10 @@ def oracle_read(spec, odfdo):
 
 
 def key_read(spec, code):
+    if spec.get("cls") and code in (1, 4):
+        return "row.py/_translate_row_coordinates/%s" % spec["cls"]
+    if spec.get("pre"):
+        return "table.py/after-%s/%s/%s" % ("+".join(o[0] for o in spec["pre"]), spec["m"], {1: "forms-disagree", 4: "range-not-bounded", 2: "not-the-model-slice"}.get(code, "code%d" % code))
     if spec.get("cls") and code in (1, 4):
         return "row.py/_translate_row_coordinates/%s" % spec["cls"]
     cls = {1: "forms-disagree", 4: "range-not-bounded", 2: "not-the-model-slice"}.get(code, "code%d" % code)
@@ -886,13 +986,18 @@ WRITERS = ["SetValue", "SetCell", "SetValues", "InsertCell", "DeleteCell", "SetR
            "SetCells", "SetRowCells", "SetColumnCells", "RowSetCell", "RowSetCells", "SetSpan", "DelSpan", "Transpose"]
 
 
-def gen_write_case(rng, tier):
+HIST_WRITERS = ["SetValue", "SetCell", "SetRowValues", "DeleteRow", "InsertRow", "DeleteColumn", "InsertColumn", "AppendCell", "SetColumnValues", "DeleteCell", "InsertCell", "SetValues"]
+
+
+def gen_write_case(rng, tier, table=None, m=None):
     # rectangular tables; half of them store repeated rows / cells / columns as runs (the writers must address the same logical
     # cell whatever the run-length layout: F1..F4, F7 are repaired in the tree under test)
-    m = rng.choice(WRITERS)
+    m = m or rng.choice(WRITERS)
     # (transpose of a table with rows of different widths raises: F21, C17's subject — transpose is driven on rectangular tables)
-    tb = gen_table(rng, repeats=rng.random() < .5, ragged=(m != "Transpose" and rng.random() < .15))
+    tb = table or gen_table(rng, repeats=rng.random() < .5, ragged=(m != "Transpose" and rng.random() < .15))
     w = sum(r for _, r in tb["cols"]); h = sum(r for r, _ in tb["rows"])
+    if table is not None and (w == 0 or h == 0):
+        return None
     if w == 0 or h == 0:
         tb = dict(cols=[(0, 1), (1, 1)], rows=[(1, [(11, 1), (12, 1)]), (1, [(13, 1), (None, 1)])]); w = h = 2
     x = rng.randrange(0, w); y = rng.randrange(0, h)
@@ -950,9 +1055,11 @@ def gen_write_case(rng, tier):
     return dict(k="write", table=tb, m=m, j=j, forms=forms, arg=arg, valid=True, area=[x, y, zz, t])
 
 
-def do_write(odfdo, xml, m, j, f, arg, spec_area=None):
+def do_write(odfdo, xml, m, j, f, arg, spec_area=None, pre=None):
     from odfdo import Cell, Row, Column
     t = odfdo.Element.from_tag(xml)
+    if pre:
+        apply_ops(odfdo, t, pre)
     a = form_py(f)
     def mkrow(vals):
         r = Row()
@@ -1035,11 +1142,22 @@ def do_write(odfdo, xml, m, j, f, arg, spec_area=None):
 def run_write(spec, odfdo):
     xml = table_xml(spec["table"])
     cols, grid = abstract_table(xml)
-    pairs = [do_write(odfdo, xml, spec["m"], spec["j"], f, spec["arg"], spec.get("area")) for f in spec["forms"]]
+    pre = spec.get("pre")
+    if pre:
+        # the table after the operations, as the XML has it now; the writer's forms are drawn against it and applied to live objects
+        t0 = odfdo.Element.from_tag(xml); apply_ops(odfdo, t0, pre)
+        cols, grid = abstract_table(t0.serialize())
+        sub = gen_write_case(random.Random(spec["seed"]), "quick", table=post_table(cols, grid), m=spec["m"])
+        if sub is None:
+            return "((0, [], true, []) : case_t)"
+        spec = dict(spec, forms=spec.get("forms") or sub["forms"], arg=sub["arg"], j=sub["j"], area=sub["area"], valid=True)
+    pairs = [do_write(odfdo, xml, spec["m"], spec["j"], f, spec["arg"], spec.get("area"), pre) for f in spec["forms"]]
     return "((%d, %s, %s, [%s]) : case_t)" % (len(cols), grid_term(grid), "true" if spec["valid"] else "false", ";".join("(%s, %s)" % p for p in pairs))
 
 
 def key_write(spec, code):
+    if spec.get("pre"):
+        return "table.py/after-%s/%s/%s" % ("+".join(o[0] for o in spec["pre"]), spec["m"], {1: "forms-disagree", 2: "not-the-model-table"}.get(code, "code%d" % code))
     return "table.py/%s/%s" % (spec["m"], {1: "forms-disagree", 2: "not-the-model-table"}.get(code, "code%d" % code))
 
 
@@ -1389,7 +1507,7 @@ GROUPS = {"A": (HEADER_A, key_pure, 2500), "B": (HEADER_B, key_read, 250), "C": 
 
 def shrink_forms(group, spec, code, odfdo, U):
     """keep the first form and one other that still fails (cheap delta on the forms list)"""
-    if group not in ("B", "C") or len(spec["forms"]) <= 2:
+    if group not in ("B", "C") or len(spec.get("forms") or []) <= 2:
         return spec
     hdr = GROUPS[group][0]
     cands = []
@@ -1432,6 +1550,9 @@ def run(tier, seed, replay=None):
         specs["B"] += exh
         specs["B"] += [gen_read_case(rng, tier) for _ in range(nB)]
         specs["C"] += [gen_write_case(rng, tier) for _ in range(nC)]
+        nH = 1500 if tier == "quick" else 12000
+        specs["B"] += [gen_hist_case(rng, tier) for _ in range(nH)]
+        specs["C"] += [gen_hist_case(rng, tier, writer=True) for _ in range(nH // 3)]
         specs["D"] += gen_named(rng, tier)
     violations, known_seen, notes, errors_all, hist, evals = [], [], {}, [], {}, 0
     abstraction_errors = []
